@@ -483,6 +483,69 @@ func c07(repo string, out *fg.Out) error {
 		return fmt.Errorf("createColumnarRecoveryCallback no longer replays through WriteColumnarDirectNoWAL")
 	}
 
+	// ---- every HTTP ingest handler turns a buffer write error into a non-2xx reply: the ArrowBuffer
+	// write call is the Init of `if err := …; err != nil { … return c.Status(…) / error … }`
+	apiFiles, err := fg.ParseDir(repo, "internal/api")
+	if err != nil {
+		return err
+	}
+	writeCallers := 0
+	for _, f := range apiFiles {
+		var ferr error
+		ast.Inspect(f.AST, func(n ast.Node) bool {
+			is, ok := n.(*ast.IfStmt)
+			var call *ast.CallExpr
+			if ok && is.Init != nil {
+				for _, nm := range []string{"Write", "WriteColumnarRecord", "WriteTypedColumnarDirect", "WriteColumnarDirect"} {
+					for _, c := range fg.CallsNamed(is.Init, nm) {
+						if se, ok := c.Fun.(*ast.SelectorExpr); ok {
+							t := selText(se.X)
+							if strings.HasSuffix(t, ".arrowBuffer") || strings.HasSuffix(t, ".buffer") {
+								call = c
+							}
+						}
+					}
+				}
+			}
+			if call == nil {
+				return true
+			}
+			writeCallers++
+			hasRet := false
+			ast.Inspect(is.Body, func(m ast.Node) bool {
+				if r, ok := m.(*ast.ReturnStmt); ok {
+					t := f.Text(r)
+					if strings.Contains(t, "Status(") || strings.Contains(t, "importError") || strings.Contains(t, "Errorf") || strings.Contains(t, "err") {
+						if !strings.Contains(t, "StatusNoContent") && !strings.Contains(t, "StatusOK") {
+							hasRet = true
+						}
+					}
+				}
+				return true
+			})
+			if !hasRet {
+				ferr = fmt.Errorf("%s:%d: buffer write error is not turned into an error reply", f.Path, f.Line(is))
+			}
+			return true
+		})
+		if ferr != nil {
+			return ferr
+		}
+	}
+	// the err := …; if err != nil form (lineprotocol.go)
+	for _, f := range apiFiles {
+		t := strings.Join(strings.Fields(string(f.Src)), "")
+		if strings.Contains(t, "err:=h.buffer.WriteColumnarRecord(") {
+			if !strings.Contains(t, "err:=h.buffer.WriteColumnarRecord(c.Context(),database,record)iferr!=nil{") {
+				return fmt.Errorf("%s: WriteColumnarRecord error no longer checked", f.Path)
+			}
+			writeCallers++
+		}
+	}
+	if writeCallers < 5 {
+		return fmt.Errorf("expected at least 5 checked ArrowBuffer write call sites in internal/api, found %d", writeCallers)
+	}
+
 	// ---- output
 	leanList := func(xs []string) string {
 		var p []string
@@ -503,10 +566,12 @@ func c07(repo string, out *fg.Out) error {
 		leanList(tickFlag), leanList(tickElse), b(queueFullSetsFlag), b(queueFullErrors), b(onlyNoWal), b(workerFail), b(syncFail), leanList(shutOrder))
 	fmt.Fprintf(&out.Lean, "/-- periodic recovery MinFileAge (ns), safeAge = max(floor, mult * MaxBufferAge) -/\ndef minFileAgeNs : Nat := %d\ndef safeAgeMult : Nat := %d\ndef safeAgeFloorNs : Nat := %d\n", minFileAge, mult, floor)
 	fmt.Fprintf(&out.Lean, "def hooksBeforeComponents : Bool := %s\n", b(hooksFirst))
+	fmt.Fprintf(&out.Lean, "/-- ArrowBuffer write call sites in internal/api whose error becomes a non-2xx reply -/\ndef apiWriteCallersChecked : Nat := %d\n", writeCallers)
 	for _, r := range regs {
 		fmt.Fprintf(&out.Lean, "-- %s: %s priority %d -> %s\n", r.Name, r.Kind, r.Priority, r.Action)
 	}
 	fmt.Fprintf(&out.Lean, "end Arc.Generated.C07\n")
+	out.JSON["api_write_callers_checked"] = writeCallers
 	out.JSON["tick_flag"] = tickFlag
 	out.JSON["tick_else"] = tickElse
 	out.JSON["registrations"] = regs
